@@ -205,6 +205,68 @@ func framing(m *Message) (kind string, n int64, err error) {
 	return "none", 0, nil
 }
 
+// ParseResponse decodes one response starting at off.  method is the request method
+// it answers ("" if unknown); closed says the stream ends with a close (needed to
+// accept read-until-close framing).
+func ParseResponse(b []byte, off int, method string, closed bool) (*Message, int, error) {
+	m := &Message{Start: off}
+	line, n, err := readLine(b, off)
+	if err != nil {
+		return nil, off, fmt.Errorf("status line: %v", err)
+	}
+	off = n
+	if len(line) < 12 || !strings.HasPrefix(line, "HTTP/1.") || (line[7] != '0' && line[7] != '1') || line[8] != ' ' {
+		return nil, off, fmt.Errorf("bad status line %q", trunc(line))
+	}
+	m.Proto = line[:8]
+	code := line[9:12]
+	if code[0] < '1' || code[0] > '9' || code[1] < '0' || code[1] > '9' || code[2] < '0' || code[2] > '9' {
+		return nil, off, fmt.Errorf("bad status code in %q", trunc(line))
+	}
+	m.Status, _ = strconv.Atoi(code)
+	if len(line) > 12 {
+		if line[12] != ' ' {
+			return nil, off, fmt.Errorf("bad status line %q", trunc(line))
+		}
+		m.Reason = line[13:]
+	}
+	m.Fields, off, err = parseFields(b, off)
+	if err != nil {
+		return nil, off, fmt.Errorf("(status %d) header: %v", m.Status, err)
+	}
+	kind, cl, err := framing(m)
+	if err != nil {
+		return nil, off, fmt.Errorf("(status %d): %v", m.Status, err)
+	}
+	nobody := (m.Status >= 100 && m.Status < 200) || m.Status == 204 || m.Status == 304 || method == "HEAD"
+	switch {
+	case nobody:
+		m.Framing = "none"
+	case kind == "chunked":
+		m.Framing = "chunked"
+		off, err = parseChunked(b, off, m)
+		if err != nil {
+			return nil, off, fmt.Errorf("(status %d) chunked body: %v", m.Status, err)
+		}
+	case kind == "cl":
+		m.Framing = "cl"
+		if off+int(cl) > len(b) {
+			return nil, off, fmt.Errorf("(status %d): Content-Length %d but only %d body bytes on the wire", m.Status, cl, len(b)-off)
+		}
+		m.Body = append([]byte(nil), b[off:off+int(cl)]...)
+		off += int(cl)
+	default:
+		if !closed {
+			return nil, off, fmt.Errorf("(status %d): no framing header and connection not closed", m.Status)
+		}
+		m.Framing = "close"
+		m.Body = append([]byte(nil), b[off:]...)
+		off = len(b)
+	}
+	m.End = off
+	return m, off, nil
+}
+
 // ParseResponses splits a captured server output into responses.  methods[i] is the
 // method of the i-th request (for HEAD); interim 1xx responses are returned in order
 // with the finals, and do not consume a method.  closed says the peer closed the
@@ -214,70 +276,18 @@ func ParseResponses(b []byte, methods []string, closed bool) ([]*Message, error)
 	off := 0
 	ri := 0
 	for off < len(b) {
-		m := &Message{Start: off}
-		line, n, err := readLine(b, off)
+		method := ""
+		if ri < len(methods) {
+			method = methods[ri]
+		}
+		m, n, err := ParseResponse(b, off, method, closed)
 		if err != nil {
-			return out, fmt.Errorf("response %d status line: %v", len(out), err)
+			return out, fmt.Errorf("response %d: %v", len(out), err)
 		}
 		off = n
-		if len(line) < 12 || !strings.HasPrefix(line, "HTTP/1.") || (line[7] != '0' && line[7] != '1') || line[8] != ' ' {
-			return out, fmt.Errorf("response %d: bad status line %q", len(out), trunc(line))
-		}
-		m.Proto = line[:8]
-		code := line[9:12]
-		if code[0] < '1' || code[0] > '9' || code[1] < '0' || code[1] > '9' || code[2] < '0' || code[2] > '9' {
-			return out, fmt.Errorf("response %d: bad status code in %q", len(out), trunc(line))
-		}
-		m.Status, _ = strconv.Atoi(code)
-		if len(line) > 12 {
-			if line[12] != ' ' {
-				return out, fmt.Errorf("response %d: bad status line %q", len(out), trunc(line))
-			}
-			m.Reason = line[13:]
-		}
-		m.Fields, off, err = parseFields(b, off)
-		if err != nil {
-			return out, fmt.Errorf("response %d (status %d) header: %v", len(out), m.Status, err)
-		}
-		method := ""
-		interim := m.Status >= 100 && m.Status < 200
-		if !interim {
-			if ri < len(methods) {
-				method = methods[ri]
-			}
+		if !(m.Status >= 100 && m.Status < 200) {
 			ri++
 		}
-		kind, cl, err := framing(m)
-		if err != nil {
-			return out, fmt.Errorf("response %d (status %d): %v", len(out), m.Status, err)
-		}
-		nobody := interim || m.Status == 204 || m.Status == 304 || method == "HEAD"
-		switch {
-		case nobody:
-			m.Framing = "none"
-		case kind == "chunked":
-			m.Framing = "chunked"
-			off, err = parseChunked(b, off, m)
-			if err != nil {
-				return out, fmt.Errorf("response %d (status %d) chunked body: %v", len(out), m.Status, err)
-			}
-		case kind == "cl":
-			m.Framing = "cl"
-			if off+int(cl) > len(b) {
-				return out, fmt.Errorf("response %d (status %d): Content-Length %d but only %d body bytes on the wire", len(out), m.Status, cl, len(b)-off)
-			}
-			m.Body = append([]byte(nil), b[off:off+int(cl)]...)
-			off += int(cl)
-		default:
-			// read-until-close: legal only if the connection is then closed
-			if !closed {
-				return out, fmt.Errorf("response %d (status %d): no framing header and connection not closed", len(out), m.Status)
-			}
-			m.Framing = "close"
-			m.Body = append([]byte(nil), b[off:]...)
-			off = len(b)
-		}
-		m.End = off
 		out = append(out, m)
 	}
 	return out, nil
